@@ -5,6 +5,21 @@ import json, subprocess
 BASELINE = json.load(open('/root/.vp/BASELINE.json'))
 
 CLAIMS = {
+ "C16": dict(
+   technique="static analysis: data-dependence (symmetry in the arguments), control-dependence of the exact fallback, inconsistent-renaming clone detection and error-constant folding over go/ssa and the syntax tree",
+   text="Narrow claim: decides the order-independence machinery and the error constants of the intersection-point computation, not its accuracy. The hemisphere correction of Intersection is a function of all four vertices; a choice between two points by computed distance falls back to comparing the points when the distances tie (projection); the two edges are canonicalised by a consistently renamed pair of statements (R-RENAME over edge_crossings.go); intersectionExact runs only on the 'stable method declined' edge; none of the stable method's error constants (intersectionError, the 32*sqrt(3)*dblError projection term, maxError) is smaller than its derived value.",
+   note="Trusts go/ssa and the frozen budget table. Does NOT decide the 8*2^-53 rad accuracy bound, that intersectionStable declines exactly when it must, or the collinear-edge rule of the exact method. Exploratory round of four seeded changes: none caught by pre-existing rules, three of four after the obligations above were added (DESIGN.md section 9.3).",
+   design="DESIGN.md section 4 C16 (as built), section 9.3"),
+ "C17": dict(
+   technique="static analysis: error-constant folding, error-model shape check and unit (chord-angle) lint over go/ssa",
+   text="Narrow claim: decides only the documented error model of the distance primitives. The error allowances of interiorDist, minUpdateInteriorDistanceMaxError, ChordAngle.MaxPointError and MaxAngleError are not smaller than their derived values (R-CONST); the error of UpdateMinDistance is max(interior-case error, MaxPointError) (R-ERRMODEL); chord angles are not combined with built-in arithmetic apart from the antipode identity (R-UNITS); no duplicated test, self-comparison or inconsistently renamed clone in the anchored files.",
+   note="Trusts go/ssa and the frozen budget table. Does NOT decide that computed distances, projections and interpolations meet the bounds, the interior/vertex case decision, the max-distance-through-antipode logic, or the polyline walks. Exploratory round: one of four seeded changes caught by pre-existing rules, two of four after R-ERRMODEL.",
+   design="DESIGN.md section 4 C17 (as built), section 9.3"),
+ "C20": dict(
+   technique="static analysis: value-flow check that a tolerance is scaled by its documented factor, constructor-establishes-field and unit-conversion obligations, constant-direction checks over go/ssa",
+   text="Narrow claim: decides what is visible in code shape about the approximation operators. The tessellator compares its error estimate (which under-estimates by a known factor) with the requested tolerance times tessellationScaleFactor, takes the estimate at both interior fractions and does not raise its tolerance floor; every constructor of a snap function establishes the snap radius it declares; IntLatLngSnapper.SnapPoint converts to degrees before scaling and rounding; the snap radii contain their rounding allowances (R-CONST). On the unchanged tree three of these obligations failed; all three were genuine defects (demonstrated with failing inputs) and were repaired by fix: commits (known_findings.json: D25, D26, D27).",
+   note="Trusts go/ssa and the frozen budget table. Does NOT decide the achieved error of tessellation, subsampling or snapping on concrete inputs, projection round trips, or the wedge tracking of SubsampleVertices. Exploratory round: none of four seeded changes caught by pre-existing rules, two of four after R-TOLERANCE.",
+   design="DESIGN.md section 0 (D25-D27), section 4 C20 (as built), section 9.3"),
  "C11": dict(
    technique="static analysis: comparison-discipline, sibling (twin) and delegation checks over go/ssa and the syntax tree for the cell-id / cell-union code; must-pass-through of Normalize",
    text="Narrow claim: decides only the clauses of the cell-union algebra that are visible in code shape. Every direct comparison of a cell's inclusive leaf range (RangeMin/RangeMax) in cellid.go and cellunion.go is inclusive on the correct side, and each function of the algebra keeps the number of such comparisons confirmed by reading (R-RANGE); first/last, begin/end and next/previous functions of CellID are mirror images (R-TWIN); a Contains* method never decides by an Intersects* method of its own type (R-NAMEPAIR); constructors that promise a normalised result pass Normalize() on every return and s2intersect normalises the very union it then sweeps (R-NORMUSE); no test is duplicated and no value compared with itself in these files (R-DUP, R-SELFCMP).",
